@@ -1,7 +1,10 @@
 #!/usr/bin/env python3
 # Independent reader of FDT instances (xml.parsers.expat, namespace aware).  One request per line on
 # stdin (hex of the XML bytes), one canonical line on stdout:
-#   I <expires> <complete> <fullfdt> <groups> <oti> <n> {F <toi> <loc> <clen> <tlen> <type> <cenc> <md5> <oti> <cc> <etag> <groups>}
+#   I <expires> <groups> <n> {F <toi> <loc> <clen> <tlen> <type> <cenc> <md5> <oti> <cc> <etag> <groups>}
+# <oti> of a file = the FEC-OTI attributes as an RFC 6726 reader resolves them: the File element's when it carries an
+# encoding id, else the FDT-Instance's; the scheme-specific info only for the schemes that define one (1, 2, 6).
+# Complete / FullFDT and WHERE the attributes are written are not part of the property and are not printed.
 # or `XMLERR <reason>` when the document is not well-formed / not an FDT-Instance.
 import sys, base64, binascii
 import xml.parsers.expat as expat
@@ -32,11 +35,15 @@ def boolean(s):
     return "1" if s == "true" else ("0" if s == "false" else "?" + hx(s))
 
 
-def oti(a):
+def oti(a, inst=None):
     keys = ["FEC-OTI-FEC-Encoding-ID", "FEC-OTI-FEC-Instance-ID", "FEC-OTI-Maximum-Source-Block-Length",
             "FEC-OTI-Encoding-Symbol-Length", "FEC-OTI-Max-Number-of-Encoding-Symbols"]
+    if inst is not None and a.get(keys[0]) is None:
+        a = inst
     vals = [a.get(k) for k in keys]
     ssi = a.get("FEC-OTI-Scheme-Specific-Info")
+    if vals[0] not in ("1", "2", "6"):
+        ssi = None
     if all(v is None for v in vals) and ssi is None:
         return "~"
     if ssi is None:
@@ -105,8 +112,7 @@ def parse(data):
     a = root["attrs"]
     if a is None:
         raise ValueError("no root")
-    out = ["I", num(a.get("Expires")), boolean(a.get("Complete")), boolean(a.get(NS08 + " FullFDT")),
-           groups(root["groups"]), oti(a)]
+    out = ["I", num(a.get("Expires")), groups(root["groups"])]
     files = []
     for f in root["files"]:
         fa = f["attrs"]
@@ -131,7 +137,7 @@ def parse(data):
         files.append((key, " ".join([
             "F", num(toi), hx(fa.get("Content-Location")), num(fa.get("Content-Length")), num(fa.get("Transfer-Length")),
             hx(fa.get("Content-Type")), ("~" if ce is None else (ce if ce in ("null", "zlib", "deflate", "gzip") else "?" + hx(ce))),
-            hx(fa.get("Content-MD5")), oti(fa), c, hx(fa.get(NS12 + " File-ETag")), groups(f["groups"])])))
+            hx(fa.get("Content-MD5")), oti(fa, a), c, hx(fa.get(NS12 + " File-ETag")), groups(f["groups"])])))
     files.sort(key=lambda x: x[0])
     out.append(str(len(files)))
     out += [x[1] for x in files]
